@@ -1,5 +1,5 @@
 """Which contracts decide which property."""
-from . import indexing, bases, align, axes, metadata, reshape, dataset, missing, transform, join, wellformed
+from . import indexing, bases, align, axes, metadata, reshape, dataset, missing, transform, join, wellformed, regroup
 
 GLOBAL_ASSUMPTIONS = [
     "NumPy implements the contracts in dverif/symnp.py (validated by sampling against the installed NumPy, never proved)",
@@ -29,6 +29,11 @@ PROPERTIES = {
         "min_obligations": 2000,
         "explanation": "proved: direction / uniqueness / order of Axis.union and intersection, frame and sort of _get_aligned_axes (real bodies, exact identity), align's composition over the callee contracts (labels, data, NaN fill, dims, forwarding, inputs untouched), reindex_axis. bounded stand-in (exhaustive, lengths <= 3): the set-inclusion clauses of union / intersection / _common_axis, on which the 'set union / intersection' sentence of the property rests.",
     },
+    "C11": {
+        "contracts": [regroup.Flatten, regroup.Unflatten, regroup.FlattenUnflatten, regroup.Reshape, transform.ReduceTuple, regroup.MultiAxisLabels],
+        "level": "proof",
+        "min_obligations": 2000,
+    },
     "C12": {
         "contracts": [join.Stack, join.Concatenate, join.JoinAligned],
         "level": "other",
@@ -36,13 +41,13 @@ PROPERTIES = {
         "explanation": "proved: stack / concatenate without align (labels, by-name placement of every cell, refusal of differing labels, no metadata, inputs untouched); bounded stand-in: align=True (composition with align, which is proved under C06).",
     },
     "C05": {
-        "contracts": [wellformed.Construct, wellformed.Helpers, wellformed.AxesSetter, wellformed.AxisCache, wellformed.NestedDict] +
+        "contracts": [wellformed.Construct, wellformed.Helpers, wellformed.AxesSetter, wellformed.AxisCache, wellformed.NestedDict, wellformed.MultiAxisCache] +
                      [(c, r"outer-nosort") if c.__name__ == "AlignWF" else c for c in wellformed.WF_CONTRACTS],
         "level": "proof",
         "min_obligations": 1000,
     },
     "C08": {
-        "contracts": [transform.Reduce, transform.ReduceNativeOnly],
+        "contracts": [transform.Reduce, transform.ReduceTuple, transform.ReduceNativeOnly],
         "level": "proof",
         "min_obligations": 400,
     },
